@@ -351,18 +351,12 @@ fn digits_i128(v: i128) -> u32 {
 
 /// Finding class of an integer spelling whose result differs from the instant's second.
 /// `unit-ambiguous`: the digit count of the value does not fall in the band the code assigns to
-/// the unit the value was written in. `negative-subsecond`: unit recognised, but a negative
-/// value with a sub-second remainder is truncated toward zero instead of floored.
-fn int_class(v: i128, div: i128, rem: i128) -> &'static str {
+/// the unit the value was written in. Anything else — in particular a negative value with a
+/// sub-second remainder that is not floored (repaired in repo commit 700d14d) — has no class.
+fn int_class(v: i128, div: i128, _rem: i128) -> &'static str {
     let d = digits_i128(v);
     let assumed: Option<i128> = match d { 0..=11 => Some(1), 12..=14 => Some(1_000), 15..=16 => Some(1_000_000), 17..=19 => Some(1_000_000_000), _ => None };
-    if assumed != Some(div) {
-        "unit-ambiguous"
-    } else if v < 0 && rem != 0 {
-        "negative-subsecond"
-    } else {
-        "-"
-    }
+    if assumed != Some(div) { "unit-ambiguous" } else { "-" }
 }
 
 fn show_opt(o: Option<i64>) -> String {
